@@ -3,7 +3,10 @@
 //
 //	c18obs < lines "hexpiece,hexpiece,..."  ->
 //	  INC <r1>|<r2>|... GLOBALS name=val;...  \t WHOLE <result> GLOBALS name=val;...
-//	piece result: OK <val> | REJECT parse | REJECT compile | ERR <class>
+//	piece result: OK <val> | REJECT parse | REJECT compile left=<opcodes emitted before the rejection> syms=<n> codes=<n> | ERR <class>
+//
+// The evaluators run with concurrency enabled and the builtins chan / spawn, so that pieces may start threads that
+// outlive them.
 package main
 
 import (
@@ -20,6 +23,7 @@ import (
 	"github.com/risor-io/risor/builtins"
 	"github.com/risor-io/risor/compiler"
 	"github.com/risor-io/risor/object"
+	"github.com/risor-io/risor/op"
 	"github.com/risor-io/risor/parser"
 	"github.com/risor-io/risor/vm"
 )
@@ -90,7 +94,7 @@ func globalsOf(machine *vm.VirtualMachine, code *compiler.Code) string {
 	sort.Strings(names)
 	var parts []string
 	for _, n := range names {
-		if n == "len" || n == "print" || n == "hostfn" {
+		if n == "len" || n == "print" || n == "hostfn" || n == "chan" || n == "spawn" {
 			continue
 		}
 		o, err := machine.Get(n)
@@ -101,6 +105,26 @@ func globalsOf(machine *vm.VirtualMachine, code *compiler.Code) string {
 		parts = append(parts, n+"="+val(o, 0))
 	}
 	return strings.Join(parts, ";")
+}
+
+// what a rejected piece left in the compiler's main code: the instructions it had emitted before the rejection
+// (names of the opcodes), the global symbols it had declared, the code objects (functions) it had created
+func leftBehind(main *compiler.Code, n0, g0, f0 int) string {
+	var ops []string
+	for i := n0; i < main.InstructionCount(); {
+		info := op.GetInfo(main.Instruction(i))
+		name := info.Name
+		if name == "" {
+			name = fmt.Sprintf("OP%d", main.Instruction(i))
+		}
+		ops = append(ops, name)
+		i += 1 + info.OperandCount
+	}
+	left := "-"
+	if len(ops) > 0 {
+		left = strings.Join(ops, ",")
+	}
+	return fmt.Sprintf(" left=%s syms=%d codes=%d", left, main.GlobalsCount()-g0, len(main.Flatten())-f0)
 }
 
 func main() {
@@ -137,8 +161,9 @@ func main() {
 			mkcfg := func() *risor.Config {
 				// host-provided globals: two builtins, a number and a list (fresh objects for each evaluator)
 				globals := map[string]any{"len": builtins.Builtins()["len"], "print": printFn, "hostfn": hostFn,
-					"limit": int64(10), "hostlist": []any{int64(1), int64(2)}}
-				return risor.NewConfig(risor.WithoutDefaultGlobals(), risor.WithGlobals(globals))
+					"limit": int64(10), "hostlist": []any{int64(1), int64(2)},
+					"chan": builtins.Builtins()["chan"], "spawn": builtins.Builtins()["spawn"]}
+				return risor.NewConfig(risor.WithoutDefaultGlobals(), risor.WithGlobals(globals), risor.WithConcurrency())
 			}
 			cfg := mkcfg()
 			// ---- incremental, as the REPL's evaluator
@@ -160,9 +185,10 @@ func main() {
 					results = append(results, "REJECT parse")
 					continue
 				}
+				n0, g0, f0 := c.Code().InstructionCount(), c.Code().GlobalsCount(), len(c.Code().Flatten())
 				code, err := c.Compile(ast)
 				if err != nil {
-					results = append(results, "REJECT compile")
+					results = append(results, "REJECT compile"+leftBehind(c.Code(), n0, g0, f0))
 					continue
 				}
 				lastCode = code
